@@ -11,7 +11,8 @@ RULE = (
     "cases: pilot (non-constant pilot shorter than N, tiled); prefix (a prefix that already crosses at k, any seed / reps / "
     "quantile); comparison (bound-1 assorter, clean value 1/(2-v), one-vote value at every floor(1/r1)-th position from 0, 0 at "
     "every floor(1/r2)-th); polling (reported tallies interleaved); contest (estimate = max over assertions); audit (max over "
-    "contests of the max over unconfirmed assertions, 0 for a contest confirmed since an earlier estimate); interleave "
+    "contests of the max over unconfirmed assertions, 0 for a contest confirmed since an earlier estimate); audit-oneaudit (first "
+    "estimate of a ONEAudit: the CVRs' own overstatement values with one-/two-vote overstatements at the assumed rates, tiled); interleave "
     "(exact counts). Oracle: first index at which the same test's history on that population is <= the risk limit, else N. "
     "Non-trivial = the crossing happens strictly inside the population (1 < k < N) or never; for interleave = all three "
     "values requested. distinct = canonical JSON."
@@ -27,8 +28,8 @@ ALPHAS = [0.05, 0.05, 0.1, 0.01, 0.25]
 
 def shards(tier):
     n = 1000 if tier == "quick" else 12000
-    return [{"name": m, "mode": m, "examples": n if m != "interleave" else 4 * n}
-            for m in ("pilot", "prefix", "comparison", "polling", "contest", "audit", "raire-estimator", "interleave")]
+    return [{"name": m, "mode": m, "examples": (n // 4 if m == "audit-oneaudit" else n) if m != "interleave" else 4 * n}
+            for m in ("pilot", "prefix", "comparison", "polling", "contest", "audit", "audit-oneaudit", "raire-estimator", "interleave")]
 
 
 @st.composite
@@ -112,6 +113,15 @@ def strategy(shard):
 
     if mode in ("pilot", "prefix"):
         return pilot()
+    if mode == "audit-oneaudit":
+        # the first estimate of a ONEAudit (no cards inspected yet): the CVRs' own overstatement values with one- and two-vote
+        # overstatements placed at the assumed rates, tiled to the population size
+        from strategies import audit as sa
+
+        return st.fixed_dictionaries({"mode": st.just(mode),
+                                      "scn": sa.scenario(n_contests=(1, 2), kinds=["plurality", "super"], audit_types=("ONEAUDIT",), use_style=False,
+                                                         n_cards=(6, 40), favour_winner=True, with_phantoms=False, p_missing=0.0),
+                                      "rate_1": st.sampled_from([0, 0.05, 0.1, 0.25, 0.5]), "rate_2": st.sampled_from([0, 0, 0.02, 0.1, 0.2, 0.34])})
     if mode in ("comparison", "polling", "contest", "audit"):
         return contestcase()
     if mode == "raire-estimator":
@@ -211,6 +221,56 @@ def evaluate(case, out):
         out.expect(len(y) == case["n_small"] + case["n_med"] + case["n_big"] and got == (case["n_small"], case["n_med"], case["n_big"]),
                    "interleave-counts", lambda: (got, (case["n_small"], case["n_med"], case["n_big"])))
         out.nontrivial = case["n_small"] > 0 and case["n_med"] > 0
+        return
+    if mode == "audit-oneaudit":
+        from strategies import audit as sa
+
+        scn = case["scn"]
+        try:
+            audit, contests, cvrs, _ = sa.build(scn)
+            for con in contests.values():
+                for a in con.assertions.values():
+                    a.assorter.set_tally_pool_means(cvr_list=cvrs, use_style=False)
+            from shangrla.core.Audit import Assertion
+            Assertion.set_all_margins_from_cvrs(audit, contests, cvrs)
+        except Exception as e:  # noqa
+            out.lib_exception("setup", e)
+            return
+        if not all(a.margin > 0 for con in contests.values() for a in con.assertions.values()):
+            out.skip("nonpositive-margin")
+            return
+        for con in contests.values():
+            for a in con.assertions.values():
+                means = a.assorter.tally_pool_means or {}
+                if any(c.pool and np.isnan(means.get(c.tally_pool, 0.0)) for c in cvrs):
+                    out.skip("nan-pool-mean")
+                    return
+        audit.error_rate_1, audit.error_rate_2, audit.reps = case["rate_1"], case["rate_2"], None
+        wants = {}
+        try:
+            for cid, con in contests.items():
+                w = 0
+                for key, a in con.assertions.items():
+                    d, _u = a.mvrs_to_data(cvrs, cvrs, use_all=True)     # (what these values are is C06's business)
+                    d = np.array(d, dtype=float)
+                    if case["rate_1"]:
+                        d[np.arange(0, len(d), math.floor(1 / case["rate_1"]))] = a.make_overstatement(overs=1 / 2)
+                    if case["rate_2"]:
+                        d[np.arange(0, len(d), math.floor(1 / case["rate_2"]))] = 0.0   # the largest possible overstatement
+                    N = int(a.test.N)
+                    pop = np.tile(d, math.ceil(N / len(d)))[:N]
+                    hist = np.asarray(copy.deepcopy(a.test).test(pop)[1], dtype=float)
+                    w = max(w, first_crossing(hist, con.risk_limit, N))
+                wants[cid] = w
+            total = audit.find_sample_size(contests, cvrs=cvrs)
+        except Exception as e:  # noqa
+            out.lib_exception("find_sample_size", e)
+            return
+        got = {cid: int(con.sample_size) for cid, con in contests.items()}
+        out.expect(got == wants and int(total) == max(wants.values()), "oneaudit-first-estimate!=first-crossing-on-assumed-data",
+                   lambda: {"got": got, "want": wants, "total": int(total), "rates": (case["rate_1"], case["rate_2"])})
+        out.cls("rates-differ" if case["rate_2"] and math.floor(1 / case["rate_2"]) != (math.floor(1 / case["rate_1"]) if case["rate_1"] else None) else "rates-equal-or-zero")
+        out.nontrivial = bool(case["rate_1"] or case["rate_2"]) and 1 < max(wants.values())
         return
     if mode in ("pilot", "prefix"):
         cfg, x, alpha = case["cfg"], case["x"], case["alpha"]
